@@ -13,6 +13,12 @@
   Specification vocabulary: `Spec/PublicInputOK.lean` (`PublicInputOK`, `BuiltinRowOK`, `usage`,
   `WellFormed`, `programLen`, `VerifyOK`).  Helper lemmas: `Proofs/PublicInputCheck*.lean`.
 
+  ALL SIX static layouts: the generated constants and builtin tables of dex, recursive,
+  recursive_with_poseidon, small, starknet, starknet_with_keccak are well-formed
+  (`generated_layouts_wellFormed`, by evaluating the computable check `wellFormedB`), so the main
+  theorem holds for each of them with no hypothesis left (`validate_pi_iff_static_layouts`,
+  `validate_pi_iff_<L>`).
+
   NO PROVISO on the trace length: each builtin's `copies = trace_length.field_div(row_ratio)` is
   required to be `<= u128::MAX`, which forces the row ratio to divide the trace length
   (`copies_small_iff`); a trace SHORTER than a builtin's row ratio (field quotient near `P`) is
@@ -25,6 +31,7 @@ import Swiftness.Proofs.PublicInputCheckArith
 import Swiftness.Proofs.PublicInputCheckValidate
 import Swiftness.Proofs.PublicInputCheckVerify
 import Swiftness.Proofs.PublicInputCheckExample
+import Swiftness.Proofs.PublicInputCheckLayouts
 
 namespace Swiftness.C14
 
@@ -197,5 +204,95 @@ example (H : Hashes) :
 example (H : Hashes) :
     Proofs.PIC.recursiveData.verifyPublicInput H Proofs.PIC.shiftedPi = .err "MainPageInvalid" :=
   Proofs.PIC.shiftedPi_verify H
+
+/-! ### all six static layouts (generated constants and builtin tables)
+
+  `Proofs/PublicInputCheckLayouts.lean`: `wellFormedB : LayoutData → Bool` is a computable check with
+  `wellFormedB D = true ↔ WellFormed D`; the data of each layout (`dexData`, `recursiveData`,
+  `recursiveWithPoseidonData`, `smallData`, `starknetData`, `starknetWithKeccakData`: the generated
+  constants and `Gen.Layout.<L>.builtinTable`) passes it by evaluation, so nothing below depends on
+  the concrete rows of a table. -/
+
+/-- the computable well-formedness check decides `WellFormed` -/
+theorem wellFormedB_iff (D : LayoutData) : Proofs.PIC.wellFormedB D = true ↔ WellFormed D :=
+  Proofs.PIC.wellFormedB_iff D
+
+/-- the generated constants and builtin tables of ALL SIX static layouts are well-formed -/
+theorem generated_layouts_wellFormed :
+    WellFormed Proofs.PIC.dexData ∧ WellFormed Proofs.PIC.recursiveData ∧
+    WellFormed Proofs.PIC.recursiveWithPoseidonData ∧ WellFormed Proofs.PIC.smallData ∧
+    WellFormed Proofs.PIC.starknetData ∧ WellFormed Proofs.PIC.starknetWithKeccakData :=
+  ⟨Proofs.PIC.dexData_wellFormed, Proofs.PIC.recursiveData_wellFormed,
+   Proofs.PIC.recursiveWithPoseidonData_wellFormed, Proofs.PIC.smallData_wellFormed,
+   Proofs.PIC.starknetData_wellFormed, Proofs.PIC.starknetWithKeccakData_wellFormed⟩
+
+/-- PAYOFF.  For each of the six static layouts, with its generated data, and for ALL public inputs
+    and ALL domains (no hypothesis left): `validate_public_input` accepts exactly when the
+    natural-number specification holds for the trace length the domains carry. -/
+theorem validate_pi_iff_static_layouts (D : LayoutData)
+    (hD : D ∈ [Proofs.PIC.dexData, Proofs.PIC.recursiveData, Proofs.PIC.recursiveWithPoseidonData,
+      Proofs.PIC.smallData, Proofs.PIC.starknetData, Proofs.PIC.starknetWithKeccakData])
+    (pi : PublicInput) (d : StarkDomains) :
+    D.validatePublicInput pi d = .ok () ↔ PublicInputOK D pi d.traceDomainSize.val :=
+  validate_pi_iff D (Proofs.PIC.staticLayoutData_wellFormed D hD) pi d d.traceDomainSize.val
+    d.traceDomainSize.isLt (Proofs.PIC.felt_ofNat_val d.traceDomainSize).symm
+
+theorem validate_pi_iff_dex (pi : PublicInput) (d : StarkDomains) :
+    Proofs.PIC.dexData.validatePublicInput pi d = .ok () ↔
+      PublicInputOK Proofs.PIC.dexData pi d.traceDomainSize.val :=
+  validate_pi_iff_static_layouts _ (by simp) pi d
+
+theorem validate_pi_iff_recursive (pi : PublicInput) (d : StarkDomains) :
+    Proofs.PIC.recursiveData.validatePublicInput pi d = .ok () ↔
+      PublicInputOK Proofs.PIC.recursiveData pi d.traceDomainSize.val :=
+  validate_pi_iff_static_layouts _ (by simp) pi d
+
+theorem validate_pi_iff_recursive_with_poseidon (pi : PublicInput) (d : StarkDomains) :
+    Proofs.PIC.recursiveWithPoseidonData.validatePublicInput pi d = .ok () ↔
+      PublicInputOK Proofs.PIC.recursiveWithPoseidonData pi d.traceDomainSize.val :=
+  validate_pi_iff_static_layouts _ (by simp) pi d
+
+theorem validate_pi_iff_small (pi : PublicInput) (d : StarkDomains) :
+    Proofs.PIC.smallData.validatePublicInput pi d = .ok () ↔
+      PublicInputOK Proofs.PIC.smallData pi d.traceDomainSize.val :=
+  validate_pi_iff_static_layouts _ (by simp) pi d
+
+theorem validate_pi_iff_starknet (pi : PublicInput) (d : StarkDomains) :
+    Proofs.PIC.starknetData.validatePublicInput pi d = .ok () ↔
+      PublicInputOK Proofs.PIC.starknetData pi d.traceDomainSize.val :=
+  validate_pi_iff_static_layouts _ (by simp) pi d
+
+theorem validate_pi_iff_starknet_with_keccak (pi : PublicInput) (d : StarkDomains) :
+    Proofs.PIC.starknetWithKeccakData.validatePublicInput pi d = .ok () ↔
+      PublicInputOK Proofs.PIC.starknetWithKeccakData pi d.traceDomainSize.val :=
+  validate_pi_iff_static_layouts _ (by simp) pi d
+
+/-- in particular: on every static layout a trace whose length is not a multiple of some builtin's
+    row ratio is rejected, for all inputs -/
+theorem short_trace_rejected_static_layouts (D : LayoutData)
+    (hD : D ∈ [Proofs.PIC.dexData, Proofs.PIC.recursiveData, Proofs.PIC.recursiveWithPoseidonData,
+      Proofs.PIC.smallData, Proofs.PIC.starknetData, Proofs.PIC.starknetWithKeccakData])
+    (pi : PublicInput) (d : StarkDomains)
+    (row : ℕ × ℕ × ℕ) (hrow : row ∈ D.builtins) (hnd : ¬ row.2.1 ∣ d.traceDomainSize.val) :
+    D.validatePublicInput pi d ≠ .ok () :=
+  short_trace_rejected D (Proofs.PIC.staticLayoutData_wellFormed D hD) pi d d.traceDomainSize.val
+    d.traceDomainSize.isLt (Proofs.PIC.felt_ofNat_val d.traceDomainSize).symm row hrow hnd
+
+/-- non-vacuity on the largest table (starknet_with_keccak, seven builtins): an honest input with one
+    instance of each builtin on a trace of length `32768 = 2^15` is accepted and satisfies the
+    specification; with half a Keccak instance (8 of 16 cells) it is rejected and does not -/
+example :
+    Proofs.PIC.starknetWithKeccakData.validatePublicInput Proofs.PIC.keccakGoodPi
+      (Proofs.PIC.mkDomains 32768) = .ok () ∧
+    PublicInputOK Proofs.PIC.starknetWithKeccakData Proofs.PIC.keccakGoodPi
+      (Proofs.PIC.mkDomains 32768).traceDomainSize.val ∧
+    ¬ PublicInputOK Proofs.PIC.starknetWithKeccakData Proofs.PIC.keccakHalfPi
+      (Proofs.PIC.mkDomains 32768).traceDomainSize.val :=
+  ⟨Proofs.PIC.keccakGoodPi_validate,
+   (validate_pi_iff_starknet_with_keccak _ _).mp Proofs.PIC.keccakGoodPi_validate,
+   fun h => by
+     have h' := (validate_pi_iff_starknet_with_keccak _ _).mpr h
+     rw [Proofs.PIC.keccakHalfPi_validate] at h'
+     cases h'⟩
 
 end Swiftness.C14
